@@ -574,6 +574,28 @@ func c02(c *Ctx) {
 				}
 			}
 			src := strings.Contains(pathOf(st.Val), "call(strconv.ParseFloat)#0")
+			if ph, isPhi := st.Val.(*ssa.Phi); isPhi && !src {
+				// the (value, error) pair of a conversion helper written in place: only the origin that comes with a nil
+				// error reaches this store; it must be ParseFloat's value, and the helper's own tests (error, NaN) are
+				// the conditions on that edge
+				if leaves, ok := successLeaves(ph, st.Block()); ok && len(leaves) == 1 {
+					lv := leaves[0]
+					if strings.Contains(pathOf(lv.V), "call(strconv.ParseFloat)#0") {
+						src = true
+						for _, cd := range lv.Conds {
+							cd = normCond(cd)
+							if cl, ok := cd.V.(*ssa.Call); ok && isCall(cl, "math.IsNaN") && !cd.Sense && cl.Call.Args[0] == stripConv(lv.V) {
+								okNaN = true
+							}
+							if b := asBinOp(cd.V, token.NEQ, token.EQL); b != nil && isNilConst(b.Y) && strings.Contains(pathOf(b.X), "call(strconv.ParseFloat)#1") {
+								if (b.Op == token.NEQ && !cd.Sense) || (b.Op == token.EQL && cd.Sense) {
+									okErr = true
+								}
+							}
+						}
+					}
+				}
+			}
 			r.Check("Run:value-from-ParseFloat", src, st.Pos(), "Value <- "+pathOf(st.Val))
 			r.Check("Run:value-parse-ok", okErr, st.Pos(), "Value stored only when ParseFloat's error is nil")
 			r.Check("Run:value-not-NaN", okNaN, st.Pos(), "Value stored only when !math.IsNaN(v)")
